@@ -140,6 +140,12 @@ func (u *Unit) coverBlock(st *State, fr *Frame, b *ssa.BasicBlock) {
 			break
 		}
 	}
+	if txt := u.contract.Opts["dead-ok"]; txt != "" && pos.IsValid() {
+		// code that is provably unreachable (defensive guards) is declared as such in the contract
+		if strings.Contains(u.eng.sourceLine(pos), txt) {
+			return
+		}
+	}
 	u.obls = append(u.obls, &Obligation{Name: fmt.Sprintf("%s/cover-block#%d", u.name, b.Index), Kind: "cover", Func: u.name, Props: u.contract.Props,
 		Pos: u.eng.posStr(pos), Goal: fmt.Sprintf("basic block %d (%s) is reachable under the contract's assumptions", b.Index, b.Comment), Query: st.pathText() + "(check-sat)\n", Cover: true, PathID: st.pathID})
 }
